@@ -25,6 +25,8 @@ EXTRA = {
     'marker-with-203': [203010, 4015, 203255, 4015, 223000, 101001, 31031, 223255, 203000],
     'rep-with-ops': [101002, 201130, 101000, 31001, 12001, 201000, 1004],
     'seq-309052-head': [301001, 301011, 301013, 301021],
+    # a delayed replication (its class-31 factor) while an operator is pending on 'the following elements'
+    'rep-in-203': [1001, 203012, 101000, 31001, 12001, 203255, 12001, 203000, 12001],
 }
 
 
